@@ -38,7 +38,7 @@ instance (f : F) : Decidable (WF f) := by unfold WF; infer_instance
 
 /-- What the C requires of an *operand* (its own precision is irrelevant to every reader). -/
 def OpWF (f : F) : Prop :=
-  Limbs f.d ∧ f.d.length = f.size.natAbs ∧ f.d.getLast? ≠ some 0
+  Limbs f.d ∧ f.d.length = f.size.natAbs ∧ f.d.getLast? ≠ some 0 ∧ (f.size = 0 → f.exp = 0)
 
 instance (f : F) : Decidable (OpWF f) := by unfold OpWF; infer_instance
 
